@@ -59,6 +59,9 @@ uint64_t rnd();               // scheduler PRNG (recorded nondeterminism)
 void op_begin(int kind, bool lockfree); // scheduling point; starts an operation scope (C16)
 void op_end();
 void yield_hint();            // scheduling point that counts as spinning
+// true once the managed thread started from specs[spec_index] of the current run() has finished completely (body and thread_local
+// destructors); adds the happens-before edge of a join. Native runtime: always false (callers skip what depends on it).
+bool thread_done(int spec_index);
 
 // Monitor sections: hooks are ignored (no scheduling, no race recording) while quiet.
 void quiet_begin();
